@@ -39,6 +39,24 @@ fn param_ty(param_ty: &ast::TypeName) -> syn::Type {
     }
 }
 
+/// Conversion of an argument Rust passes *to* a callback or trait method, the opposite direction of [`param_conversion`]
+fn callback_arg_conversion(
+    name: &ast::Ident,
+    arg_type: &ast::TypeName,
+    cast_to: &syn::Type,
+) -> Option<proc_macro2::TokenStream> {
+    match arg_type {
+        ast::TypeName::Option(inner, _) if !arg_type.is_ffi_safe() => {
+            Some(if inner.is_ffi_safe() {
+                quote!(let #name: #cast_to = #name.into();)
+            } else {
+                quote!(let #name: #cast_to = #name.map(|v| v.into()).into();)
+            })
+        }
+        _ => param_conversion(name, arg_type, Some(cast_to)),
+    }
+}
+
 fn param_conversion(
     name: &ast::Ident,
     param_type: &ast::TypeName,
@@ -83,10 +101,10 @@ fn param_conversion(
                 let param_ident_str = format!("arg{}", index);
                 let orig_type = in_ty.to_syn();
                 let param_converted_type = param_ty(in_ty);
-                if let Some(conversion) = param_conversion(
+                if let Some(conversion) = callback_arg_conversion(
                     &ast::Ident::from(param_ident_str.clone()),
                     in_ty,
-                    Some(&param_converted_type),
+                    &param_converted_type,
                 ) {
                     all_params_conversion.push(conversion);
                 }
@@ -167,7 +185,7 @@ fn gen_custom_trait_impl(custom_trait: &ast::Trait, custom_trait_struct_name: &I
             .map(|p| {
                 let orig_type = p.ty.to_syn();
                 let p_ty = param_ty(&p.ty);
-                if let Some(conversion) = param_conversion(&p.name.clone(), &p.ty, Some(&p_ty)) {
+                if let Some(conversion) = callback_arg_conversion(&p.name, &p.ty, &p_ty) {
                     all_params_conversion.push(conversion);
                 }
                 let p_name = &p.name;
